@@ -1,0 +1,57 @@
+//go:build verif
+
+package gortsplib
+
+// Read-only view of the client's control state for the verification harness (property C12;
+// build tag "verif" only; nothing here changes behaviour).  The caller must only use it while
+// the client's run loop is idle or after Wait() has returned.
+
+// VerifClientState is a snapshot of the fields the run loop owns.
+type VerifClientState struct {
+	State       string
+	Closed      bool
+	Session     string
+	CSeq        int
+	OptionsSent bool
+	HasSender   bool
+	HasBaseURL  bool
+	HasConn     bool
+	HasReader   bool
+	HasWriter   bool
+	Protocol    string // "", "udp", "multicast", "tcp"
+	Medias      int
+	MustClose   bool
+}
+
+// VerifClientSnapshot returns the control state of c.
+func VerifClientSnapshot(c *Client) VerifClientState {
+	st := VerifClientState{
+		State:       c.state.String(),
+		Session:     c.session,
+		CSeq:        c.cseq,
+		OptionsSent: c.optionsSent,
+		HasSender:   c.sender != nil,
+		HasBaseURL:  c.baseURL != nil,
+		HasConn:     c.nconn != nil,
+		HasReader:   c.reader != nil,
+		HasWriter:   c.writer != nil,
+		Medias:      len(c.setuppedMedias),
+		MustClose:   c.mustClose,
+	}
+	select {
+	case <-c.done:
+		st.Closed = true
+	default:
+	}
+	if c.setuppedTransport != nil {
+		switch c.setuppedTransport.Protocol {
+		case ProtocolUDP:
+			st.Protocol = "udp"
+		case ProtocolUDPMulticast:
+			st.Protocol = "multicast"
+		case ProtocolTCP:
+			st.Protocol = "tcp"
+		}
+	}
+	return st
+}
